@@ -95,6 +95,18 @@ Fixpoint pop_fundings (n : nat) (asset : string) (acc : list funding) (s : list 
   end.
 
 
+(* OP_FUNDING_ASSEMBLE with count n on the stack r (count already popped) *)
+Definition vm_assemble (n : Z) (r : list vval) : outcome (list vval) :=
+  if n =? 0 then Err EInvalidScript
+  else if n <? 0 then Panic
+  else match r with
+       | XFunding first :: r1 =>
+           do (fs, r2) <- pop_fundings (Nat.pred (Z.to_nat n)) (fasset first) [first] r1;
+           Ok (XFunding {| fasset := fasset first;
+                           fparts := fold_left (fun acc f => concat_parts acc (fparts f)) fs [] |} :: r2)
+       | _ => Panic
+       end.
+
 Section Exec.
 Context {O : Type}.
 Variable look : O -> option vval.
@@ -196,16 +208,7 @@ Definition step (i : instr O) (st : vmstate) : outcome vmstate :=
       end
   | IFundingAssemble =>
       match s with
-      | XV (VNumber n) :: r =>
-          if n =? 0 then Err EInvalidScript
-          else if n <? 0 then Panic
-          else match r with
-               | XFunding first :: r1 =>
-                   do (fs, r2) <- pop_fundings (Nat.pred (Z.to_nat n)) (fasset first) [first] r1;
-                   Ok (with_stk st (XFunding {| fasset := fasset first;
-                                                fparts := fold_left (fun acc f => concat_parts acc (fparts f)) fs [] |} :: r2))
-               | _ => Panic
-               end
+      | XV (VNumber n) :: r => do r' <- vm_assemble n r; Ok (with_stk st r')
       | _ => Panic
       end
   | IFundingSum =>
